@@ -19,6 +19,6 @@ for id in $ids; do
     if [ $rc -eq 1 ] && echo "$out" | grep -q "^VIOLATION property=$p "; then echo "$id: $p catches it"; else echo "$id: $p MISSES it (exit $rc)"; fail=1; fi
   done
   git -C /repo worktree remove --force $wt
+  t=$(echo "$wt" | md5sum | cut -c1-8); rm -f .build/sim-$t.test .build/sim-$t-race.test .build/go-$t.mod .build/go-$t.sum
 done
-rm -f .build/sim-*.test .build/go-*
 exit $fail
